@@ -10,6 +10,7 @@ import JubakoModel.Lemmas.Search
 import JubakoModel.Lemmas.Order
 import JubakoModel.Lemmas.DirFile
 import JubakoModel.Lemmas.FuncsSearch
+import JubakoModel.Lemmas.FuncsDir
 
 namespace Jubako
 
@@ -147,5 +148,14 @@ theorem c03_find_is_source_find (cmpAt : Nat → Ordering) (ordered : Bool) (off
 /-- non-vacuity: the translated search on a three-entry window at offset 2 finds the middle entry in both modes -/
 example : Generated.rangeFind (fun i => compare i 3) true 2 3 = some (some 1) ∧
           Generated.rangeFind (fun i => compare i 3) false 2 3 = some (some 1) := by decide
+
+/-- **The writer's order on array keys that `c03_writer_order_is_reader_order` and `c03_stored_order`
+    are about is the body of the creator's `Array::cmp` as translated from
+    `creator/directory_pack/value.rs` on every run** (prefix bytes, then value id, then length). -/
+theorem c03_writer_order_is_source_order (vs : VStore) (fixed : Nat) (a b : Bytes) :
+    writerArrCmp vs fixed a b =
+      Generated.writerArrayCmp (lexCmp (a.take fixed) (b.take fixed)) (vs.idOf (a.drop fixed)) (vs.idOf (b.drop fixed))
+        a.length b.length :=
+  gen_writerArrCmp vs fixed a b
 
 end Jubako
